@@ -621,7 +621,7 @@ macro_rules! interp {
                                 "sort" => sl.sort(),
                                 "sort_by" | "tsm_sort_by" | "tvec_sort_by" => sl.sort_by(|a, b| { let (x, y) = (keyo(a), keyo(b)); x.cmp(&y) }),
                                 _ => sl.sort_by_key(|a| keyo(a)) } });
-                        (format!("{} calls={}", ri, ca.k), format!("{} calls={}", rs, cb.k)) }
+                        { let _ = (ca.k, cb.k); (ri, rs) } }
                     // apply_index r <vec|slicemut> <index list>
                     "apply_index" => { let r = reg(w[1]); let idx = parse_list(w[3]);
                         (exec(0, || { match w[2] { "vec" => ::soa_derive::SoAVec::apply_index(&mut regs[r], &idx), _ => ::soa_derive::SoASliceMut::apply_index(&mut regs[r].as_mut_slice(), &idx) } }),
